@@ -261,7 +261,7 @@ def run(ctx):
     failures += _sf
     if prop == "C14":
         # where a peer's bytes enter the sync round: fetch goroutine, timeout, decoding
-        _ob, _sf = vlib.skeleton_tie(prop, "core", only=["Blockchain.verifyNeighborBlockchain"])
+        _ob, _sf = vlib.skeleton_tie(prop, "core", only=["Blockchain.verifyNeighborBlockchain", "Blockchain.Blocks"])
         extra.append(_ob)
         failures += _sf
 
